@@ -17,6 +17,7 @@
 #include "oneapi/tbb/parallel_pipeline.h"
 #include "oneapi/tbb/global_control.h"
 #include "oneapi/tbb/task_arena.h"
+#include "verif_hb.h"
 #include <cstdio>
 #include <cstring>
 #include <sstream>
@@ -30,6 +31,7 @@ static uint64_t g_bodyseed = 0;
 static std::size_t g_next = 0, g_inv = 0;
 static std::atomic<int> g_spin{0};          // instrumented: every load is a scheduling point
 static const uint64_t NONE = ~0ull;
+static const uint64_t SERIAL_CELL = 1ull << 40;
 
 static uint64_t mix(uint64_t a, uint64_t b, uint64_t c) {
     uint64_t x = a * 0x9E3779B97F4A7C15ull ^ (b + 0x7F4A7C15ull) * 0xBF58476D1CE4E5B9ull ^ (c + 1) * 0x94D049BB133111EBull;
@@ -47,10 +49,16 @@ static void body_points(std::size_t stage, std::size_t item) {
 
 static bool input_step(tbb::flow_control& fc, std::size_t& id) {
     std::size_t inv = g_inv++;
+    if (inv > g_items + 2000) _exit(3);      // end of input is ignored: the pipeline would never return (reported like a deadlock)
     verif::note("ib", inv, 0);
     body_points(0, inv);
+    // happens-before ghosts (verif_hb.h): successive invocations of a SERIAL filter write one cell per filter; every
+    // invocation on an item writes the item's cell (the token is handed from filter to filter through spawn / the
+    // input_buffer under its lock: the hand-over must be ordered by the memory orders the code uses, not only in this SC run)
+    if (g_modes[0] != 'p') verif::note("gw", SERIAL_CELL + 0);
     if (g_next < g_items) {
         id = g_next++;
+        verif::note("gw", id);
         verif::note("ie", inv, id);
         return true;
     }
@@ -58,7 +66,12 @@ static bool input_step(tbb::flow_control& fc, std::size_t& id) {
     fc.stop();
     return false;
 }
-static void enter(std::size_t k, std::size_t id) { verif::note("b", k, id); body_points(k, id); }
+static void enter(std::size_t k, std::size_t id) {
+    verif::note("b", k, id);
+    verif::note("gw", id);
+    if (g_modes[k] != 'p') verif::note("gw", SERIAL_CELL + k);
+    body_points(k, id);
+}
 static void leave(std::size_t k, std::size_t id) { verif::note("e", k, id); }
 
 static tbb::filter_mode mode_of(char c) {
@@ -147,7 +160,10 @@ int main(int argc, char** argv) {
         else if (t == "e") printf("e %llu %llu\n", (unsigned long long)e.a, (unsigned long long)e.b);
         else if (t == "ret") printf("ret\n");
     }
-    printf("stat steps=%zu threads=%d deadlock=%d\n", r.steps, maxtid + 1, r.deadlock ? 1 : 0);
+    verif::HbStats hs;
+    std::vector<verif::HbRace> races = verif::hb_check(r.log, bodies.size(), &hs);
+    for (auto& rc : races) printf("MON hb-race %s\n", verif::hb_describe(r.log, rc).c_str());
+    printf("stat steps=%zu threads=%d deadlock=%d ghost=%zu sync=%zu\n", r.steps, maxtid + 1, r.deadlock ? 1 : 0, hs.ghost, hs.sync_edges);
     printf("sched %s\n", rle(r.schedule).c_str());
     printf("end\n");
     fflush(stdout);
